@@ -21,17 +21,17 @@ type Engine struct {
 	spkgs   map[string]*ssa.Package
 	specs   map[string]*PkgSpec
 
-	heapKeys   map[string]*Sort
-	closures   map[string]ClosureV
-	typeTags   map[string]int
-	tagTypes   map[int]types.Type
-	strLits    map[string]int
-	typeCache  map[string]types.Type
-	pkgFilePos map[string][]token.Pos
-	extraPkgs  map[string]*types.Package
+	heapKeys     map[string]*Sort
+	closures     map[string]ClosureV
+	typeTags     map[string]int
+	tagTypes     map[int]types.Type
+	strLits      map[string]int
+	typeCache    map[string]types.Type
+	pkgFilePos   map[string][]token.Pos
+	extraPkgs    map[string]*types.Package
 	allTypesPkgs []*types.Package
-	loopCache  map[*ssa.Function]map[*ssa.BasicBlock]*loopInfo
-	globalInit map[string]globalInitInfo
+	loopCache    map[*ssa.Function]map[*ssa.BasicBlock]*loopInfo
+	globalInit   map[string]globalInitInfo
 
 	obls    []*Obligation
 	covers  []*Obligation
@@ -42,12 +42,12 @@ type Engine struct {
 
 	extraAssumptions map[string][]string
 	extraCoverage    map[string]map[string]interface{}
-	protoContract map[*ssa.Function]*Contract
-	engineObls    []*Obligation
-	driverRuns    []DriverRun
-	trustedUsed map[string]bool
-	slessUsed   bool
-	allFuncs    map[*ssa.Function]bool
+	protoContract    map[*ssa.Function]*Contract
+	engineObls       []*Obligation
+	driverRuns       []DriverRun
+	trustedUsed      map[string]bool
+	slessUsed        bool
+	allFuncs         map[*ssa.Function]bool
 }
 
 func NewEngine(repo string, patterns []string) (*Engine, error) {
@@ -81,7 +81,7 @@ func NewEngine(repo string, patterns []string) (*Engine, error) {
 		loopCache: map[*ssa.Function]map[*ssa.BasicBlock]*loopInfo{}, trivial: map[string]int{},
 		extraAssumptions: map[string][]string{}, extraCoverage: map[string]map[string]interface{}{},
 		protoContract: map[*ssa.Function]*Contract{},
-		trustedUsed: map[string]bool{}, globalInit: map[string]globalInitInfo{},
+		trustedUsed:   map[string]bool{}, globalInit: map[string]globalInitInfo{},
 	}
 	for _, p := range pkgs {
 		if p.Module != nil && e.modPath == "" {
